@@ -20,7 +20,7 @@ Lemma rebuild_al : forall toc foot H S C footer tocbytes tocdec older wal seq ti
   t || l || v = true ->
   rebuild (mkFile toc toc foot H S C footer tocbytes tocdec older wal seq time lex vec nvec rows) t l v b
   = mkFile toc toc foot (C + 1) (C + 1) (C + 1) true true true None WClean 0 IxOk (lex || l)
-           (if v then IxNone else vec) (if v then 0 else nvec) rows.
+           (if v then vec_reencoded vec else vec) (if v && vec_bad vec then 0 else nvec) rows.
 Proof.
   intros until b. intros Hany. unfold rebuild. rewrite Hany, rewrite_toc_al. unfold reset_wal, zero_log.
   cbn [f_ptr f_toc f_foot f_H f_S f_C f_footer f_tocbytes f_tocdec f_older f_wal f_seq f_time f_lex f_vec f_nvec f_rows].
@@ -41,7 +41,7 @@ Proof.
   rewrite N.eqb_refl. cbn [andb].
   assert (Ev : negb (match vc with IxBad => true | _ => false end) = true) by (destruct vc; [reflexivity|reflexivity|congruence]).
   assert (Et : negb (match tm with IxBad => true | _ => false end) = true) by (destruct Htm as [->|[-> _]]; reflexivity).
-  rewrite Ev, Et. repeat split; try reflexivity; assumption.
+  rewrite Et. repeat split; try reflexivity; assumption.
 Qed.
 
 (* what the open guarantees (try_open_wf) plus what the plan guarantees (compute_wf) *)
@@ -54,7 +54,7 @@ Lemma run_phases_healthy : forall pl base m0,
   (pl_vec pl = false -> f_vec m0 <> IxBad) ->
   let m5 := run_phases pl base m0 in
   healthy m5 /\ f_rows m5 = f_rows m0 /\ verify m5 = Ok true /\
-  f_nvec m5 = (if pl_vec pl then 0 else f_nvec m0) /\ f_seq m5 = 0.
+  f_nvec m5 = (if pl_vec pl && vec_bad (f_vec m0) then 0 else f_nvec m0) /\ f_seq m5 = 0.
 Proof.
   intros [hp hc rp vac t l v fin fnd wb] base
          [ptr toc foot H S C footer tocbytes tocdec older wal seq time lex vec nvec rows].
@@ -84,12 +84,12 @@ Proof.
      [ rewrite rebuild_al by exact Eany
      | apply orb_false_elim in Eany as [Eany ->]; apply orb_false_elim in Eany as [-> ->]; rewrite rebuild_none ]).
     + (* vacuum, rebuild *)
-      apply seal_healthy; [left; reflexivity | destruct v; [discriminate | exact (Hv eq_refl)]].
+      apply seal_healthy; [left; reflexivity | destruct v; [destruct vec; discriminate | exact (Hv eq_refl)]].
     + (* vacuum only *)
       apply seal_healthy; [|exact (Hv eq_refl)].
       destruct (Ht eq_refl) as [->|[-> _]]; left; reflexivity.
     + (* rebuild only *)
-      apply seal_healthy; [left; reflexivity | destruct v; [discriminate | exact (Hv eq_refl)]].
+      apply seal_healthy; [left; reflexivity | destruct v; [destruct vec; discriminate | exact (Hv eq_refl)]].
     + (* finalize only *)
       apply seal_healthy; [exact (Ht eq_refl) | exact (Hv eq_refl)].
   - (* nothing planned but Verify *)
@@ -100,7 +100,7 @@ Proof.
     rewrite N.eqb_refl. cbn [andb].
     assert (Ev : negb (match vec with IxBad => true | _ => false end) = true) by (destruct vec; [reflexivity|reflexivity|congruence]).
     assert (Et : negb (match time with IxBad => true | _ => false end) = true) by (destruct Ht as [->|[-> _]]; reflexivity).
-    rewrite Ev, Et. repeat split; try reflexivity; assumption.
+    rewrite Et. repeat split; try reflexivity; assumption.
 Qed.
 
 (* ---------- assembly: one non-dry doctor run on a listed file outside the two known classes ---------- *)
@@ -116,7 +116,7 @@ Theorem doctor_heals : forall o f,
   r_status (snd (doctor o f)) = (if is_noop (compute o f) then 0 else 1) /\
   r_verified (snd (doctor o f)) = Some true /\
   verify (fst (doctor o f)) = Ok true /\
-  f_nvec (fst (doctor o f)) = (if vec_bad (f_vec f) || o_vec o then 0 else f_nvec f) /\
+  f_nvec (fst (doctor o f)) = (if vec_bad (f_vec f) && negb (replayed f) then 0 else f_nvec f) /\
   f_seq (fst (doctor o f)) = 0.
 Proof.
   intros o f Hdry Hwf Hk2.
@@ -148,11 +148,14 @@ Proof.
     - destruct Hrep as (Ht0 & _). rewrite Ht0, Hrows, (view_not_replayed f Hlog Er).
       unfold needs_time_of, needs_time in E. destruct (f_time f); [right; split; [reflexivity|destruct (f_rows f); [reflexivity|discriminate]] | left; reflexivity | discriminate]. }
   assert (A4 : pl_vec (compute o f) = false -> f_vec m0 <> IxBad).
-  { rewrite Pvec, Hvec. intros E. apply orb_false_elim in E as [E _]. unfold vec_bad in E. destruct (f_vec f); congruence. }
+  { rewrite Pvec, Hvec. intros E. apply orb_false_elim in E as [E _]. unfold vec_bad in E. destruct (replayed f), (f_vec f); cbn; congruence. }
   specialize (Hrun A1 A2 A3 A4). cbv zeta in Hrun.
   destruct Hrun as (Hh & Hr & Hv & Hn & Hs).
   rewrite Hv. cbn [fst snd r_status r_verified].
-  rewrite Pvec in Hn. rewrite Hnv in Hn. rewrite Hr, Hrows.
+  rewrite Pvec, Hvec, Hnv in Hn.
+  assert (Hn' : f_nvec (run_phases (compute o f) (length (f_rows f)) m0) = (if vec_bad (f_vec f) && negb (replayed f) then 0 else f_nvec f))
+    by (destruct (replayed f), (f_vec f), (o_vec o); cbn in Hn |- *; exact Hn).
+  clear Hn. rename Hn' into Hn. rewrite Hr, Hrows.
   split; [exact Hh|]. repeat split; try reflexivity; assumption.
 Qed.
 
@@ -325,7 +328,7 @@ Theorem doctor_heals_outside_known : forall o f,
   r_status (snd (doctor o f)) = (if is_noop (compute o f) then 0 else 1) /\
   r_verified (snd (doctor o f)) = Some true /\
   verify (fst (doctor o f)) = Ok true /\
-  f_nvec (fst (doctor o f)) = (if vec_bad (f_vec f) || o_vec o then 0 else f_nvec f).
+  f_nvec (fst (doctor o f)) = (if vec_bad (f_vec f) && negb (replayed f) then 0 else f_nvec f).
 Proof.
   intros o f Hwf Hdry Hk. unfold known_class in Hk. rewrite Hdry in Hk. cbn [negb andb] in Hk.
   rename Hk into Hk2.
